@@ -1,2 +1,100 @@
+//! C20 (run-time half) – CStr constructors/conversions equal std's.
+//! The concat/join/from_iter/slice_concat half needs constants and lives in the generated
+//! programs (gen/gen_c20.py).
 use crate::common::*;
-pub fn run(_cfg: &Cfg) -> (&'static str, Report, String, String) { ("C20", Report::new(), String::new(), String::new()) }
+use core::ffi::CStr;
+use konst::ffi::cstr as kc;
+
+fn one(r: &mut Report, b: &[u8]) {
+    let inp = || format!("bytes={:?}", b);
+    // from_bytes_until_nul
+    let g = kc::from_bytes_until_nul(b).ok();
+    let w = CStr::from_bytes_until_nul(b).ok();
+    r.ev(if w.is_some() { "from_bytes_until_nul:Ok" } else { "from_bytes_until_nul:Err" });
+    if g != w {
+        r.fail("from_bytes_until_nul", "from_bytes_until_nul", inp(), format!("{:?}", g), format!("{:?}", w));
+    }
+    if let Some(c) = g {
+        // the returned CStr borrows from the input (C01 containment)
+        mon_sub_slice(r, "cstr::from_bytes_until_nul", b, c.to_bytes_with_nul());
+        conversions(r, b, c);
+    }
+    // from_bytes_with_nul
+    let g = kc::from_bytes_with_nul(b).ok();
+    let w = CStr::from_bytes_with_nul(b).ok();
+    r.ev(if w.is_some() { "from_bytes_with_nul:Ok" } else { "from_bytes_with_nul:Err" });
+    if g != w {
+        r.fail("from_bytes_with_nul", "from_bytes_with_nul", inp(), format!("{:?}", g), format!("{:?}", w));
+    }
+    if let Some(c) = g {
+        mon_sub_slice(r, "cstr::from_bytes_with_nul", b, c.to_bytes_with_nul());
+        conversions(r, b, c);
+    }
+    let nuls = b.iter().filter(|&&x| x == 0).count();
+    if nuls >= 1 && b.len() >= 2 {
+        r.nt(&b);
+    }
+}
+
+fn conversions(r: &mut Report, b: &[u8], c: &CStr) {
+    let inp = || format!("bytes={:?} cstr={:?}", b, c);
+    let g = kc::to_bytes(c);
+    mon_sub_slice(r, "cstr::to_bytes", b, g);
+    r.ev("to_bytes");
+    if g != c.to_bytes() || (!g.is_empty() && g.as_ptr() != c.to_bytes().as_ptr()) {
+        r.fail("to_bytes", "to_bytes", inp(), format!("{:?}", g), format!("{:?}", c.to_bytes()));
+    }
+    let g = kc::to_bytes_with_nul(c);
+    mon_sub_slice(r, "cstr::to_bytes_with_nul", b, g);
+    r.ev("to_bytes_with_nul");
+    if g != c.to_bytes_with_nul() || g.as_ptr() != c.to_bytes_with_nul().as_ptr() {
+        r.fail("to_bytes_with_nul", "to_bytes_with_nul", inp(), format!("{:?}", g), format!("{:?}", c.to_bytes_with_nul()));
+    }
+    let g = kc::to_str(c).ok();
+    let w = c.to_str().ok();
+    r.ev(if w.is_some() { "to_str:Ok" } else { "to_str:Err" });
+    if let Some(s) = g {
+        r.boundary_checks += 1;
+        if core::str::from_utf8(s.as_bytes()).is_err() {
+            r.fail("C01:invalid-utf8", "cstr::to_str", inp(), format!("{:?}", s.as_bytes()), "valid UTF-8".into());
+            return;
+        }
+    }
+    if g != w {
+        r.fail("to_str", "to_str", inp(), format!("{:?}", g), format!("{:?}", w));
+    }
+}
+
+pub fn run(cfg: &Cfg) -> (&'static str, Report, String, String) {
+    let alpha = [0u8, b'a', 0xFF];
+    let all = bytes_upto(&alpha, cfg.by(4, 6, 8));
+    let mut rep = par_for(cfg, all.len(), |i, r| {
+        one(r, &all[i]);
+        if i == 200 {
+            r.sample(|| format!("bytes={:?}", all[i]));
+        }
+    });
+    // valid multi-byte UTF-8 and truncated sequences before the nul
+    let alpha2 = [0u8, 0xC3, 0xB1, b'x', 0xE5];
+    let all2 = bytes_upto(&alpha2, cfg.by(3, 5, 6));
+    rep.merge(par_for(cfg, all2.len(), |i, r| one(r, &all2[i])));
+    let nrand = cfg.by(5, 2000, 20000);
+    rep.merge(par_for(cfg, nrand, |i, r| {
+        let mut rng = Rng::new(cfg.seed.wrapping_mul(2_147_483_647).wrapping_add(i as u64));
+        let n = rng.below(cfg.by(12, 40, 40));
+        let mut b: Vec<u8> = (0..n).map(|_| if rng.chance(1, 6) { 0 } else { (rng.next() & 0xFF) as u8 }).collect();
+        if rng.chance(1, 2) {
+            b.push(0);
+        }
+        one(r, &b);
+        if i == 0 {
+            r.sample(|| format!("random bytes={:?}", b));
+        }
+    }));
+    (
+        "C20",
+        rep,
+        format!("all {} byte strings of length <= {} over {{0,'a',0xFF}}; all {} over {{0,0xC3,0xB1,'x',0xE5}}; {} seeded random byte strings", all.len(), cfg.by(4, 6, 8), all2.len(), nrand),
+        "one evaluation = one konst::ffi::cstr call compared with core::ffi::CStr (from_bytes_until_nul / from_bytes_with_nul succeed iff std's do and give an equal &CStr that borrows from the input; to_bytes, to_bytes_with_nul by value and address, to_str); error variants are not compared; non-trivial = distinct inputs of length >= 2 containing a nul".into(),
+    )
+}
